@@ -267,14 +267,12 @@ func newEvent(msg, syscall *auparse.AuditMessage) *Event {
 
 	if result, found := data["result"]; found {
 		event.Result = result
-		delete(data, "result")
 	} else {
 		event.Result = "unknown"
 	}
 
 	if ses, found := data["ses"]; found {
 		event.Session = ses
-		delete(data, "ses")
 	}
 
 	if auid, found := data["auid"]; found {
@@ -289,6 +287,11 @@ func newEvent(msg, syscall *auparse.AuditMessage) *Event {
 	event.Tags, _ = msg.Tags()
 
 	for k, v := range data {
+		if k == "result" || k == "ses" {
+			// Already moved to the event above. The map belongs to the
+			// message and must not be modified.
+			continue
+		}
 		if strings.HasSuffix(k, "uid") || strings.HasSuffix(k, "gid") {
 			addSubjectAttribute(k, v, event)
 		} else if strings.HasPrefix(k, "subj_") {
@@ -427,7 +430,6 @@ func addExecveRecord(execve *auparse.AuditMessage, event *Event) {
 			return
 		}
 
-		delete(data, key)
 		args = append(args, arg)
 	}
 
